@@ -99,6 +99,8 @@ class Inliner:
             if f.value.id == 'self' and fi.cls is not None:
                 h = self.repo.resolve_method(fi.cls, f.attr)
                 if h is not None:
+                    if self._overridden_below(fi.cls, f.attr):
+                        return None          # dynamic dispatch: a subclass may run its own version
                     return h, self._has_self(h)
             else:
                 r = self.repo.resolve_name(fi.module, f.value.id)
@@ -121,6 +123,13 @@ class Inliner:
                     (_is_private(f.id) or self._guard_only(r)):
                 return r, False
         return None
+
+    def _overridden_below(self, ci, name):
+        for m in self.repo.modules.values():
+            for c in m.classes.values():
+                if c is not ci and ci in self.repo.mro(c) and (name in c.methods or name in c.class_attrs):
+                    return True
+        return False
 
     def _unique_private(self):
         if not hasattr(self, '_uniq'):
@@ -301,9 +310,9 @@ class Inliner:
                     self._note(h, False)
         # 2. statement helpers called inside a larger expression of a simple statement: bind the
         #    result to a temporary first (only where the call is evaluated unconditionally)
-        if isinstance(s, (ast.Assign, ast.AugAssign, ast.AnnAssign, ast.Return, ast.Expr)):
+        if isinstance(s, (ast.Assign, ast.AugAssign, ast.AnnAssign, ast.Return, ast.Expr, ast.If)):
             pre = []
-            for c in self._unconditional_calls(s):
+            for c in self._unconditional_calls(s.test if isinstance(s, ast.If) else s):
                 if c is call:
                     continue
                 hit = self.helper_for(fi, c)
@@ -326,7 +335,10 @@ class Inliner:
                                 return ast.copy_location(ast.Name(id=tmp, ctx=ast.Load()), node)
                         self_inner.generic_visit(node)
                         return node
-                s = _Rep().visit(s)
+                if isinstance(s, ast.If):
+                    s.test = _Rep().visit(s.test)
+                else:
+                    s = _Rep().visit(s)
                 out = []
                 for _c, _t, asg in pre:
                     out.extend(self._expand_stmt(fi, asg, changed))
@@ -343,8 +355,13 @@ class Inliner:
         out = []
 
         def rec(n):
-            if isinstance(n, (ast.Lambda, ast.ListComp, ast.SetComp, ast.DictComp, ast.GeneratorExp, ast.IfExp,
-                              ast.BoolOp)):
+            if isinstance(n, (ast.Lambda, ast.ListComp, ast.SetComp, ast.DictComp, ast.GeneratorExp)):
+                return
+            if isinstance(n, ast.BoolOp):
+                rec(n.values[0])          # the first operand is always evaluated
+                return
+            if isinstance(n, ast.IfExp):
+                rec(n.test)
                 return
             for ch in ast.iter_child_nodes(n):
                 rec(ch)
